@@ -28,6 +28,17 @@ def _elec_record(e, N):
             np.array([e.force(i) for i in range(N)]))
 
 
+def _generator(t, last, this, cap, which):
+    """fallback for steps that did not go through numpy.linalg.eigh (see eleccommon.first_eigh): the Hermitian generator the
+    exponential integrators diagonalise, as the implementation's own public hamiltonian_propagator gives it; None otherwise"""
+    if cap.calls or getattr(t, which, "exp") != "exp":
+        return None
+    try:
+        return np.array(t.hamiltonian_propagator(last, this))
+    except Exception:
+        return None
+
+
 def record_run(spec):
     """run the implementation; returns (line for the model driver, snapshots, events, eigh contract monitors)"""
     import mudslide
@@ -66,7 +77,7 @@ def record_run(spec):
     def pe(last, this, dt):
         with ec.EighCapture() as cap:
             orig_pe(last, this, dt)
-        caps.append(ec.first_eigh(cap, "propagate_electronics"))
+        caps.append(ec.first_eigh(cap, "propagate_electronics", W=_generator(t, last, this, cap, "electronic_integration")))
         mon["orth"] = max(mon["orth"], cap.worst_orth)
         mon["resid"] = max(mon["resid"], cap.worst_resid)
     t.propagate_electronics = pe
@@ -218,8 +229,10 @@ def record_afssh(spec):
         def f(last, this, *a):
             with ec.EighCapture() as cap:
                 orig(last, this, *a)
-            store.append(ec.first_eigh(cap, getattr(orig, "__name__", "a moment/electronic propagation call")))
+            store.append(ec.first_eigh(cap, getattr(orig, "__name__", "a moment/electronic propagation call"),
+                                       W=_generator(t, last, this, cap, "electronic_integration" if orig is orig_pe else "augmented_integration")))
         return f
+    orig_pe = t.propagate_electronics
     t.advance_delR = capture(t.advance_delR, capR)
     t.advance_delP = capture(t.advance_delP, capP)
     t.propagate_electronics = capture(t.propagate_electronics, capE)
